@@ -138,6 +138,12 @@ func scenario(maxRetries int, rfIdx int, elapsed bool, cancelling bool) *explore
 			if !pastElapsed && wait < lo-1 {
 				vs.Fail("back-off", "%s: retry %d started after %v, configured back-off at least %v", cfg, k, wait, lo)
 			}
+			// gives up early: the message context ended during attempt k-1 and the wait before retry k is
+			// positive, so at the wait only the ended context is ready (with a zero or already-stopped
+			// back-off both are ready and either may win, which the statement does not exclude)
+			if cancelAt == k-1 && lo > 0 && !(maxElapsed > 0 && atts[k-1].end-atts[0].end >= maxElapsed) {
+				vs.Fail("gives-up-early", "%s: the message context ended during attempt %d, but retry %d was made after waiting %v", cfg, k-1, k, wait)
+			}
 			if wait > hi {
 				vs.Fail("back-off-upper", "%s: retry %d started after %v, configured back-off at most %v", cfg, k, wait, hi)
 			}
@@ -164,6 +170,7 @@ func init() {
 			if mr <= 4 && rfi <= 1 {
 				reg.AddW("C12", scenario(mr, rfi, true, false).Name, tier, mr*(rfi+1), func(t reg.Tier) *explore.Scenario { return scenario(mr, rfi, true, false) })
 				reg.AddW("C12", scenario(mr, rfi, false, true).Name, tier, mr*(rfi+1), func(t reg.Tier) *explore.Scenario { return scenario(mr, rfi, false, true) })
+				reg.AddW("C12", scenario(mr, rfi, true, true).Name, tier, mr*(rfi+1), func(t reg.Tier) *explore.Scenario { return scenario(mr, rfi, true, true) })
 			}
 		}
 	}
